@@ -100,6 +100,7 @@ Theorem checked_method_uses_self : forall w, wrapper_ok w = true -> w_kind w = "
 Proof.
   intros w Hok Hk. unfold wrapper_ok in Hok.
   apply andb_true_iff in Hok. destruct Hok as [Hok _]. apply andb_true_iff in Hok. destruct Hok as [Hok _].
+  apply andb_true_iff in Hok. destruct Hok as [Hok _].
   apply andb_true_iff in Hok. destruct Hok as [_ Hc]. unfold call_ok in Hc. rewrite Hk in Hc. cbn in Hc.
   destruct (String.eqb (w_call w) "method") eqn:E1; cbn in Hc; [|discriminate].
   destruct (String.eqb (w_this w) "self") eqn:E2; cbn in Hc; [|discriminate].
@@ -117,7 +118,7 @@ Definition ex_w : wrapper :=
      w_params := [("a", {| k_group := "native"; k_ptrs := "&"; k_intent := "inout" |}); ("e", {| k_group := "enum"; k_ptrs := ""; k_intent := "in" |});
                   ("s", {| k_group := "string"; k_ptrs := "&"; k_intent := "in" |}); ("t", {| k_group := "shadow"; k_ptrs := "&"; k_intent := "in" |})];
      w_args := [(Deref, "a"); (Cast, "e"); (StringFrom, "s"); (DerefShadow, "t")]; w_copyouts := []; w_unknown := 0;
-     w_rkind := {| k_group := "enum"; k_ptrs := ""; k_intent := "result" |}; w_result := RCastBack; w_buf := false; w_this_const := false; w_fconst := false |}.
+     w_rkind := {| k_group := "enum"; k_ptrs := ""; k_intent := "result" |}; w_result := RCastBack; w_buf := false; w_this_const := false; w_fconst := false; w_cparams := []; w_lens := [] |}.
 
 (* what the C caller gets for a callee result *)
 Definition rsem (r : rconv) (x : cxxval) : cval :=
@@ -140,3 +141,14 @@ Example ex_w_delivers :
   wrapper_ok ex_w = true /\
   received ex_w (caller_env (w_params ex_w) [XNum 7; XEnum 5; XStr [104%N; 105%N]; XObj 3]) = [XNum 7; XEnum 5; XStr [104%N; 105%N]; XObj 3].
 Proof. split; vm_compute; reflexivity. Qed.
+
+
+(* a checked wrapper builds a std::string with the trimmed length exactly when its prototype carries that length *)
+Theorem checked_string_uses_its_length : forall w c r, wrapper_ok w = true -> In (c, r) (w_args w) -> c = StringFrom ->
+  smem (String.append "L" r) (w_cparams w) = smem r (w_lens w).
+Proof.
+  intros w c r Hok Hin ->. unfold wrapper_ok in Hok.
+  apply andb_true_iff in Hok. destruct Hok as [Hok _]. apply andb_true_iff in Hok. destruct Hok as [Hok _].
+  apply andb_true_iff in Hok. destruct Hok as [_ Hl]. unfold lens_ok in Hl. rewrite forallb_forall in Hl.
+  specialize (Hl _ Hin). cbn in Hl. apply Bool.eqb_prop in Hl. exact Hl.
+Qed.
